@@ -7,6 +7,21 @@ def _sc(E, s):
     return E.scalar('a', s.get('skind', 'float'))
 
 
+def _aug(x, op, a):
+    """augmented assignment on a second name for the object: y = x; y op= a.  None of these is a documented in-place operation,
+    so the name is rebound to a new object and x keeps its value"""
+    y = x
+    if op == '*':
+        y *= a
+    elif op == '+':
+        y += a
+    elif op == '-':
+        y -= a
+    elif op == '/':
+        y /= a
+    return y
+
+
 def _idx_last(x, v):
     d = len(x.N)
     base = [slice(None)] * (d - 1) + [v]
@@ -42,6 +57,13 @@ OPS = {
     'rmul_scalar': (['any'], lambda E, o, s: _sc(E, s) * o[0]),
     'mul_zero': (['any'], lambda E, o, s: o[0] * 0),
     'div_scalar': (['any'], lambda E, o, s: o[0] / _nz(E, s)),
+    'imul_scalar': (['any'], lambda E, o, s: _aug(o[0], '*', _sc(E, s))),
+    'imul_const': (['any'], lambda E, o, s: _aug(o[0], '*', 2.5)),
+    'iadd_scalar': (['any'], lambda E, o, s: _aug(o[0], '+', _sc(E, s))),
+    'isub_scalar': (['any'], lambda E, o, s: _aug(o[0], '-', _sc(E, s))),
+    'idiv_const': (['any'], lambda E, o, s: _aug(o[0], '/', 4.0)),
+    'iadd_tt': (['any', 'same'], lambda E, o, s: _aug(o[0], '+', o[1])),
+    'imul_tt': (['any', 'same'], lambda E, o, s: _aug(o[0], '*', o[1])),
     'neg': (['any'], lambda E, o, s: -o[0]),
     'pos': (['any'], lambda E, o, s: +o[0]),
     'matvec': (['ttm', 'tt@N'], lambda E, o, s: o[0] @ o[1]),
